@@ -135,6 +135,7 @@ LenFits(field, n) == CASE field = "len_texture" -> n < 128 [] field = "len_face_
 VFits(r) ==
     LET fits == IF r.field \in {"len_prop_model", "len_detail_model", "len_texture", "len_face_styles"}
                 THEN r.v[1] = 0 /\ LenFits(r.field, r.v[2])
+                ELSE IF IsCountField(r.field) THEN r.v[1] >= 0 /\ r.v[1] <= 1 /\ CountFits(r.layout, r.field, r.v[1] * 65536 + r.v[2])
                 ELSE FitsCode(Codes(r.layout)[r.field], r.v) /\ ~ApiRejects(r.field, r.v)
     IN IF r.outcome = "changed" THEN {M("fits.silentChange", r.field, IF fits THEN "fits" ELSE "overflow")}
        ELSE IF fits /\ r.outcome # "same" THEN {M("fits.rejectedFitting", r.field, r.exc)}
